@@ -218,8 +218,19 @@ class Backends:
         self.servers = []
 
 
+ROUTES = ["self_add", "other_add", "self_tell", "other_tell"]
+
+
 def build_and_observe(bk, case):
-    """Run one abstract case on the real code; returns the event (what was read back + the answers)."""
+    """Run one abstract case on the real code; returns the list of events (what was read back + the answers).
+
+    mode "add" / "tell": the whole history is built, then the study is asked once (one event).
+    mode "grow": ONE long-lived Study object is asked repeatedly while the history grows; every trial arrives
+    by its own route (add_trial on that Study object, add_trial or tell through a SECOND Study object on the same
+    storage, create_new_trial + tell(number) on the first one).  After the trials marked in case["probe"] (and
+    at the end) the first Study object is asked again: one event per probe, with the history prefix as read
+    back at that moment.  The admissible answers depend on the prefix only, so each event is judged as usual.
+    """
     import optuna
     from optuna.trial import FrozenTrial, TrialState, create_trial
     import datetime
@@ -237,17 +248,56 @@ def build_and_observe(bk, case):
     def attrs(t):
         return {"constraints": [float(x) for x in t["c"]]} if t["hc"] else {}
 
+    def add_one(stu, t):
+        s = S[t["s"]]
+        if s == TrialState.FAIL and t["v"]:
+            # add_trial refuses values on a FAIL trial; the storage API accepts such a template
+            ft = FrozenTrial(number=-1, trial_id=-1, state=s, value=None, values=values(t), datetime_start=now,
+                             datetime_complete=now, params={}, distributions={}, user_attrs={},
+                             system_attrs=attrs(t), intermediate_values={})
+            st.create_new_trial(sid, template_trial=ft)
+        else:
+            stu.add_trial(create_trial(state=s, values=values(t), system_attrs=attrs(t)))
+
+    def finish_one(stu, tid, i, t):
+        s = S[t["s"]]
+        if t["hc"]:
+            st.set_trial_system_attr(tid, "constraints", attrs(t)["constraints"])
+        if s == TrialState.COMPLETE:
+            stu.tell(i, values(t))
+        elif not t["v"]:
+            stu.tell(i, state=s)
+        elif s == TrialState.PRUNED and len(dirs) == 1:
+            st.set_trial_intermediate_value(tid, 1, values(t)[0])   # tell() takes the last reported value
+            stu.tell(i, state=s)
+        else:
+            st.set_trial_state_values(tid, s, values(t))
+
+    if mode == "grow":
+        other = optuna.load_study(study_name=study.study_name, storage=storage)   # a second Study object
+        events = []
+        for i, t in enumerate(hist):
+            route = case["routes"][i]
+            stu = study if route.startswith("self") else other
+            if t["s"] == "WAITING":
+                stu.add_trial(create_trial(state=TrialState.WAITING))
+            elif t["s"] == "RUNNING":
+                tid = st.create_new_trial(sid)
+                if t["hc"]:
+                    st.set_trial_system_attr(tid, "constraints", attrs(t)["constraints"])
+            elif route.endswith("add"):
+                add_one(stu, t)
+            else:
+                finish_one(stu, st.create_new_trial(sid), i, t)
+            if case["probe"][i] or i == len(hist) - 1:
+                ev = observe(study, case)
+                ev["step"] = i
+                ev["sent"] = hist[:i + 1]
+                events.append(ev)
+        return events
     if mode == "add":
         for t in hist:
-            s = S[t["s"]]
-            if s == TrialState.FAIL and t["v"]:
-                # add_trial refuses values on a FAIL trial; the storage API accepts such a template
-                ft = FrozenTrial(number=-1, trial_id=-1, state=s, value=None, values=values(t), datetime_start=now,
-                                 datetime_complete=now, params={}, distributions={}, user_attrs={},
-                                 system_attrs=attrs(t), intermediate_values={})
-                st.create_new_trial(sid, template_trial=ft)
-            else:
-                study.add_trial(create_trial(state=s, values=values(t), system_attrs=attrs(t)))
+            add_one(study, t)
     else:   # "tell": every trial is created first (number order), then finished in the given arrival order
         ids = []
         for t in hist:
@@ -260,21 +310,9 @@ def build_and_observe(bk, case):
             if t["s"] == "RUNNING" and t["hc"]:
                 st.set_trial_system_attr(ids[i], "constraints", attrs(t)["constraints"])
         for i in _finish_order(hist, dirs, order, random.Random(case.get("oseed", 0))):
-            t = hist[i]
-            s = S[t["s"]]
-            if t["hc"]:
-                st.set_trial_system_attr(ids[i], "constraints", attrs(t)["constraints"])
-            if s == TrialState.COMPLETE:
-                study.tell(i, values(t))
-            elif not t["v"]:
-                study.tell(i, state=s)
-            elif s == TrialState.PRUNED and len(dirs) == 1:
-                st.set_trial_intermediate_value(ids[i], 1, values(t)[0])   # tell() takes the last reported value
-                study.tell(i, state=s)
-            else:
-                st.set_trial_state_values(ids[i], s, values(t))
+            finish_one(study, ids[i], i, hist[i])
 
-    return observe(study, case)
+    return [observe(study, case)]
 
 
 def _reply(fn, field, empty):
@@ -299,7 +337,7 @@ def observe(study, case):
           "bts": _reply(lambda: [int(t.number) for t in study.best_trials], "ns", []),
           "sb": _reply(lambda: int(study._storage.get_best_trial(study._study_id).number), "n", -1),
           "backend": case["backend"], "mode": case["mode"], "order": case["order"], "oseed": case.get("oseed", 0),
-          "sent": case["h"]}
+          "sent": case["h"], "step": len(case["h"]) - 1}
     return ev
 
 
@@ -323,22 +361,24 @@ def _work(cases):
     out = []
     for c in cases:
         t0 = time.process_time()
-        ev = build_and_observe(_BK, c)
-        ev["ms"] = round((time.process_time() - t0) * 1000, 2)      # CPU time: the machine may be shared
-        out.append(ev)
+        evs = build_and_observe(_BK, c)
+        evs[0]["ms"] = round((time.process_time() - t0) * 1000, 2)      # CPU time: the machine may be shared
+        out.append(evs)
     return out
 
 
 def run_cases(cases, root, procs=12):
-    """Execute the cases on the real code in worker processes; the result keeps the order of `cases`."""
+    """Execute the cases on the real code in worker processes; returns the events (a case of mode "grow" yields several)."""
     if not cases:
         return []
     # slow backends first and in small chunks, so that the pool is busy until the end
+    def cost_of(c):
+        return BACKEND_COST[c["backend"]] * (1 + sum(c["probe"]) if c["mode"] == "grow" else 1)
     order = sorted(range(len(cases)), key=lambda i: -BACKEND_COST[cases[i]["backend"]])
     chunks, cur, cost = [], [], 0.0
     for i in order:
         cur.append(i)
-        cost += BACKEND_COST[cases[i]["backend"]]
+        cost += cost_of(cases[i])
         if cost >= 1500:                       # ~1.5 s of work
             chunks.append(cur)
             cur, cost = [], 0.0
@@ -354,9 +394,11 @@ def run_cases(cases, root, procs=12):
                 res = fu.result()
             except Exception as e:
                 raise tlc.MachineryError(f"worker failed while driving optuna: {type(e).__name__}: {e}") from e
-            for i, ev in zip(futs[fu], res):
-                events[i] = ev
-    return events
+            for i, evs in zip(futs[fu], res):
+                for ev in evs:
+                    ev["case"] = cases[i]
+                events[i] = evs
+    return [ev for evs in events for ev in evs]
 
 
 BACKEND_COST = {"inmem": 0.6, "journal": 2.5, "grpc": 20, "sqlite": 65, "cached": 65}     # rough CPU ms per history, for scheduling only
@@ -376,6 +418,29 @@ def interesting(dirs, hist):
 
 def case(backend, mode, order, dirs, hist, oseed=0):
     return {"backend": backend, "mode": mode, "order": order, "dirs": dirs, "h": hist, "oseed": oseed}
+
+
+def grow_case(rng, backend, dirs, hist):
+    """The history arrives trial by trial on a long-lived Study object that is asked in between."""
+    c = case(backend, "grow", "num", dirs, hist)
+    c["routes"] = [rng.choice(ROUTES) for _ in hist]
+    c["probe"] = [1 if rng.random() < 0.8 else 0 for _ in hist]
+    return c
+
+
+def random_grow_history(rng, max_dim):
+    """Mostly COMPLETE trials, mostly with constraint values: the answer changes while the history grows."""
+    dim = rng.choice([d for d in [1, 1, 1, 2, 3, 4] if d <= max_dim])
+    n = rng.randint(3, 6)
+    constrained = rng.random() < 0.75
+    pool = [FEAS, FEAS, VIOL, VIOL, NOCONS, (1, [0]), (1, [2]), (1, [-1, 3])]
+    hist = []
+    for _ in range(n):
+        s = rng.choice(["COMPLETE"] * 8 + ["PRUNED", "FAIL", "RUNNING", "WAITING"])
+        k = rng.choice(pool) if constrained and s != "WAITING" else NOCONS
+        v = [rng.choice([NEG, POS] + list(range(-3, 4)) * 2) for _ in range(dim)] if s == "COMPLETE" else []
+        hist.append(mk(s, v, k))
+    return [rng.choice([MIN, MAX]) for _ in range(dim)], hist
 
 
 def plan_cases(ctx):
@@ -446,6 +511,13 @@ def plan_cases(ctx):
             mode = rng.choice(["add", "tell"])
             cases.append(case(backend, mode, "num" if mode == "add" else rng.choice(orders), dirs, hist,
                               rng.randrange(1 << 30)))
+    # growing histories: the same Study object is asked after (almost) every arriving trial
+    n_grow = {"inmem": 2600, "journal": 300, "grpc": 40, "sqlite": 50, "cached": 10} if quick else \
+             {"inmem": 30000, "journal": 4000, "grpc": 500, "sqlite": 600, "cached": 100}
+    for backend, k in n_grow.items():
+        for _ in range(k):
+            dirs, hist = random_grow_history(rng, 3 if quick else 4)
+            cases.append(grow_case(rng, backend, dirs, hist))
     return cases, counts, executed
 
 
@@ -482,12 +554,15 @@ def judge(ctx, events, label="histories"):
             what = ", ".join(f"{names[q]}={_show(e[q])}" for q in qs) or "event (not diagnosed per reply)"
             if any(x == BAD for t in e["h"] for x in t["v"] + t["c"]):
                 what = "a value read back from the study is outside the integer lattice (shown as 7777);" + what
-            ctx.violation(f"[{e['backend']}/{e['mode']}/{e['order']}] {what} is not admitted by Best.tla for "
+            how = f"{e['backend']}/{e['mode']}/{e['order']}"
+            if e["mode"] == "grow":
+                how = (f"{e['backend']}/grow: same Study object asked again after trial {e['step']}, arrival routes "
+                       f"{e['case']['routes'][:e['step'] + 1]}, earlier reads after trials "
+                       f"{[i for i, p in enumerate(e['case']['probe'][:e['step']]) if p]}")
+            ctx.violation(f"[{how}] {what} is not admitted by Best.tla for "
                           f"directions={e['dirs']} history={_show_h(e['h'])}",
-                          {"event": {k: e[k] for k in e if k != "sent"}, "case": {
-                              "backend": e["backend"], "mode": e["mode"], "order": e["order"], "oseed": e.get("oseed", 0),
-                              "dirs": e["dirs"], "h": e.get("sent", e["h"])}, "rejected_replies": qs,
-                           "spec": "BestTrace"})
+                          {"event": {k: e[k] for k in e if k not in ("sent", "case")}, "case": e["case"],
+                           "step": e["step"], "rejected_replies": qs, "spec": "BestTrace"})
             if len(ctx.violations) >= 10:
                 break
     return v
@@ -548,7 +623,7 @@ def run(ctx):
             print(f"[{ctx.pid}] {len(events)} histories built and queried on the real storages in {time.time() - t1:.1f}s",
                   flush=True)
             for e in events:
-                key = f"{e['backend']}|{e['mode']}|{e['order']}|{e['dirs']}|{e['sent']}"
+                key = f"{e['backend']}|{e['mode']}|{e['order']}|{e['dirs']}|{e['sent']}|{e['case'].get('routes')}|{e['case'].get('probe')}"
                 ctx.count_case(key, nontrivial=interesting(e["dirs"], e["sent"]))
                 pb = per_backend.setdefault(e["backend"], {"cases": 0, "cpu_s": 0.0})
                 pb["cases"] += 1
@@ -636,8 +711,10 @@ def replay(ctx, data):
     root = data_root()
     bk = Backends(root)
     try:
-        ev = build_and_observe(bk, data["case"])
+        evs = build_and_observe(bk, data["case"])
+        for ev in evs:
+            ev["case"] = data["case"]
     finally:
         bk.close()
         shutil.rmtree(root, ignore_errors=True)
-    judge(ctx, [ev], "replay")
+    judge(ctx, evs, "replay")
